@@ -1,4 +1,5 @@
 import NibabelModel.Model.C06
+import NibabelModel.Lemmas.C06_NpSpec
 import Driver.Util
 namespace Nb.Drv.C06
 open Nb Nb.C06
@@ -44,6 +45,22 @@ def handle : List String → String
           | .ok (sh, data) => "ok " ++ showList sh ++ " " ++ showList data
           | .error _ => "ERR"
       | _, _, _ => "bad-op"
+  | ["nps", ord, shape, idx] =>
+      -- the INDEPENDENT NumPy specification (Lemmas/C06_NpSpec), compared with real NumPy
+      match (if ord = "C" then some Order.C else if ord = "F" then some Order.F else none),
+            parseNatList? shape, parseIdx? idx with
+      | some o, some shape, some idx =>
+          match npSpecIndex idx shape o with
+          | .ok (sh, data) => "ok " ++ showList sh ++ " " ++ showList data
+          | .error _ => "ERR"
+      | _, _, _ => "bad-op"
+  | ["ps", shape, idx] =>
+      match parseNatList? shape, parseIdx? idx with
+      | some shape, some idx =>
+          match predictShape idx shape with
+          | .ok sh => "ok " ++ showList sh
+          | .error _ => "ERR"
+      | _, _ => "bad-op"
   | ["spec", n, a, b, c] =>
       match n.toNat?, parseOptInt? a, parseOptInt? b, parseOptInt? c with
       | some n, some a, some b, some c =>
